@@ -92,6 +92,8 @@ enum Form {
     Regex(String),
     /// `*`
     Any,
+    /// any other ABP pattern (cube F: shapes next to `||host^`); matched by the pattern reference
+    Shape(String),
 }
 
 #[derive(Clone, Debug)]
@@ -127,8 +129,11 @@ fn parse_rule(text: &str) -> Result<Ast, String> {
     } else if let Some(h) = pat.strip_prefix("||") {
         match h.strip_suffix('^') {
             Some(h) if hostish(h) => Form::HostCaret(h.to_ascii_lowercase()),
+            _ if SHAPES_F.contains(&pat) => Form::Shape(pat.to_string()),
             _ => return Err(format!("pattern outside the model: {:?}", pat)),
         }
+    } else if SHAPES_F.contains(&pat) {
+        Form::Shape(pat.to_string())
     } else if let Some(s) = pat.strip_prefix('|') {
         match s.strip_suffix("://") {
             Some(s) if alnum(s) => Form::Pinned(s.to_string()),
@@ -361,6 +366,12 @@ fn pattern_clause(a: &Ast, o: &ORq) -> bool {
         Form::Plain(t) => o.url_lower.contains(t.as_str()),
         Form::HostCaret(h) => covers(h, &o.host),
         Form::Pinned(_) | Form::Any => true,
+        Form::Shape(p) => {
+            let hs = o.url.find("://").map(|i| i + 3).unwrap_or(0);
+            let u = vh::oracle::pattern::Url { text: o.url.as_bytes(), host_start: hs, host_end: hs + o.host.len() };
+            // (the Unspecified spellings of the pattern reference are not part of SHAPES_F)
+            vh::oracle::pattern::reference(&vh::oracle::pattern::parse(p), &u) == Tri::Must(true)
+        }
         Form::Regex(b) => {
             if a.match_case {
                 o.url.contains(b.as_str())
@@ -377,6 +388,9 @@ struct Eval {
     domain: Tri,
     scheme: bool,
     pattern: bool,
+    /// the pattern spelling has a reading of its own in this code base (`||host|`, `||host^|`:
+    /// "hostname ends here", pinned by the repo's unit tests; C02 does not compare them either)
+    pattern_unspec: bool,
 }
 
 fn and3(v: &[Tri]) -> Tri {
@@ -391,8 +405,7 @@ fn and3(v: &[Tri]) -> Tri {
 
 impl Eval {
     fn of(a: &Ast, o: &ORq) -> Eval {
-        let mut e = Eval { ty: type_clause(a, o), party: party_clause(a, o), domain: domain_clause(a, o), scheme: scheme_clause(a, o), pattern: pattern_clause(a, o) }
-        ;
+        let mut e = Eval { ty: type_clause(a, o), party: party_clause(a, o), domain: domain_clause(a, o), scheme: scheme_clause(a, o), pattern: pattern_clause(a, o), pattern_unspec: matches!(&a.form, Form::Shape(p) if p.starts_with("||") && p.ends_with('|') && !p[2..].contains('/')) };
         // `|ws://` is read by this code base as "any websocket request" (its own test-suite pins
         // the content-blocking translation `^wss?://`): against a wss:// URL, or combined with an
         // explicit type list, the property text does not say which reading is right => Unspecified.
@@ -406,7 +419,7 @@ impl Eval {
     }
     /// applies(rule, request) for a supported scheme
     fn applies(&self) -> Tri {
-        and3(&[self.ty, self.party, self.domain, Tri::Must(self.scheme), Tri::Must(self.pattern)])
+        and3(&[self.ty, self.party, self.domain, Tri::Must(self.scheme), if self.pattern_unspec { Tri::Unspec } else { Tri::Must(self.pattern) }])
     }
 }
 
@@ -456,6 +469,7 @@ fn form_kind(a: &Ast) -> String {
         Form::Pinned(s) => format!("pinned-{}", s),
         Form::Regex(_) => if a.match_case { "regex+match-case".into() } else { "regex".into() },
         Form::Any => "star".into(),
+        Form::Shape(p) => format!("shape {}", p),
     }
 }
 
@@ -958,6 +972,44 @@ fn check_rule(rule: &str, rqs: &[Rq], l: &mut Local) {
 // Universes
 // ------------------------------------------------------------------------------------------------
 
+/// Cube F: pattern shapes next to `||host^`. Only `||host^` itself (cube A) applies to document
+/// requests without a type option (src/filters/network.rs documents "only for hostname filters of
+/// the form `||example.com^`"); every shape below is an ordinary rule: all network types, no document.
+const SHAPES_F: [&str; 12] = [
+    "||example.com^|", "||example.com|", "||example.com/", "||example.com/ads", "||example.com^ads", "||example.com/|", "|https://example.com^", "|https://example.com/|",
+    "example.com^", "://example.com^", "||example.com^ads^", "||sub.example.com/",
+];
+
+fn rules_f() -> Vec<String> {
+    let mut v = vec![];
+    for shape in SHAPES_F.iter().copied().chain(["||example.com^", "||sub.example.com^"]) {
+        for exception in [false, true] {
+            for opts in ["", "3p", "1p", "important", "domain=example.com", "domain=~example.com", "script", "~script", "document", "script,document", "~script,document", "3p,important"] {
+                if exception && opts.contains("important") {
+                    continue;
+                }
+                v.push(format!("{}{}{}{}", if exception { "@@" } else { "" }, shape, if opts.is_empty() { "" } else { "$" }, opts));
+            }
+        }
+    }
+    v
+}
+
+fn requests_f(counters: &mut Vec<(String, u64)>) -> Vec<Rq> {
+    let mut v = vec![];
+    for url in ["https://example.com/", "https://example.com/ads", "https://example.com/ads/x", "https://sub.example.com/", "http://example.com/", "https://example.com.evil.org/", "https://other.org/?u=https://example.com/"] {
+        for src in ["https://example.com/", "https://sub.example.com/p", "https://unrelated.org/", ""] {
+            for ty in ["document", "main_frame", "script", "image", "subdocument", "other"] {
+                if let Some(r) = make_rq(url, src, ty) {
+                    v.push(r);
+                }
+            }
+        }
+    }
+    counters.push(("cubeF_requests_per_rule".into(), v.len() as u64));
+    v
+}
+
 const PARTY: [&str; 7] = ["", "3p", "1p", "~3p", "~1p", "third-party", "first-party"];
 const FORMS_A: [&str; 6] = ["ads", "||example.com^", "|http://", "|https://", "|ws://", "|wss://"];
 const SCHEMES: [&str; 6] = ["https", "http", "ws", "wss", "ftp", "data"];
@@ -1375,6 +1427,15 @@ fn check(ctx: &Ctx) -> i32 {
         check_rule(&rules_d[i as usize], &rq_a, l);
     });
 
+    // ---- cube F: shapes next to `||host^` (implicit document applies to that shape only) ------
+    let rules_f = rules_f();
+    let rq_f = requests_f(&mut counters);
+    ctx.bound("cubeF_rules", rules_f.len());
+    ctx.bound("cubeF_requests_per_rule", rq_f.len());
+    ctx.par_range("cubeF:implicit-document-shapes", rules_f.len() as u64, 4, |i, l| {
+        check_rule(&rules_f[i as usize], &rq_f, l);
+    });
+
     // ---- cube E: long initiator-domain lists ---------------------------------------------------
     // every subset of size 3..=8 of a 10-domain pool, once as an all-positive and once as an
     // all-negated list (the union pre-filter of check_options only starts to matter with several
@@ -1421,7 +1482,7 @@ fn check(ctx: &Ctx) -> i32 {
 
     ctx.finish(
         "model_checking",
-        "A: 6 pattern forms x every purely positive and purely negated list over the 11 type atoms (quick: 2048 positive + 63 negated over 6 atoms) x with/without document x 7 party spellings x exception x important (thorough: options also in reversed order), each against 25 type strings x 6 schemes x {third-party, first-party, absent} initiators (scheme-pinned forms additionally against a URL carrying http/https/ws as path tokens, 6 type strings); B: 79 ordered domain lists over {a.com, sub.a.com, b.com} x domain=/from= x party x 4 (thorough 10) type lists x {ads, *} x exception, against 6 initiators x first-/third-party host x 4 schemes x 4 types; C: full-regex literal rules x match-case x option, against URL case variants, plus match-case on non-regex rules; D: 18 option spellings singly and in pairs, all option orders of 4 option sets; E: every subset of 3..8 of a 10-domain pool as an all-positive and as an all-negated domain= list, against each listed domain, three sub-domains of each, unrelated and absent initiators. Every rule is evaluated with NetworkFilter::matches and on a single-rule engine. A case is non-trivial when the reference or the implementation says the rule applies; states = rules parsed + engines built, transitions = (rule, request, observation point) executions, traces_validated = executions compared with the reference.",
+        "A: 6 pattern forms x every purely positive and purely negated list over the 11 type atoms (quick: 2048 positive + 63 negated over 6 atoms) x with/without document x 7 party spellings x exception x important (thorough: options also in reversed order), each against 25 type strings x 6 schemes x {third-party, first-party, absent} initiators (scheme-pinned forms additionally against a URL carrying http/https/ws as path tokens, 6 type strings); B: 79 ordered domain lists over {a.com, sub.a.com, b.com} x domain=/from= x party x 4 (thorough 10) type lists x {ads, *} x exception, against 6 initiators x first-/third-party host x 4 schemes x 4 types; C: full-regex literal rules x match-case x option, against URL case variants, plus match-case on non-regex rules; D: 18 option spellings singly and in pairs, all option orders of 4 option sets; F: 12 pattern shapes next to `||host^` (right pipe, path, missing caret, left pipe, unanchored) and the two `||host^` rules themselves x 12 option sets x exception, against document / main_frame / 4 other types x 7 URLs x 4 initiators (only `||host^` without a type option applies to documents); E: every subset of 3..8 of a 10-domain pool as an all-positive and as an all-negated domain= list, against each listed domain, three sub-domains of each, unrelated and absent initiators. Every rule is evaluated with NetworkFilter::matches and on a single-rule engine. A case is non-trivial when the reference or the implementation says the rule applies; states = rules parsed + engines built, transitions = (rule, request, observation point) executions, traces_validated = executions compared with the reference.",
         &[
             "Unspecified (executed, not compared): mixed positive+negated type lists; positive domain= list or party option with an absent initiator; request type strings csp_report and unknown ('fetch'); unsupported schemes at matcher level (asserted at the engine only)",
             "exception rules are observed on single-rule engines through check_network_request_subset(req, true, true), blocking rules through check_network_request",
